@@ -345,7 +345,7 @@ pub fn run(ws: &[&str]) -> String {
             // headers that say nothing about the outcome: the classification may not depend on them
             b = b
                 .header(http::header::CONTENT_ENCODING, "identity")
-                .header(http::header::CONTENT_LENGTH, body.len())
+                .header(http::header::CONTENT_LENGTH, body.len() + if (body.len() / 2 + status as usize) % 2 == 0 { 7 } else { 0 })
                 .header(http::header::DATE, "Thu, 01 Jan 1970 00:00:00 GMT")
                 .header(http::header::CACHE_CONTROL, "no-store")
                 .header(http::header::PRAGMA, "no-cache")
